@@ -4,7 +4,6 @@ import (
 	"errors"
 	"fmt"
 	"math/rand"
-	"reflect"
 	"time"
 
 	"github.com/textwire/textwire/v2/ctx"
@@ -175,23 +174,56 @@ func arrayContainsFunc(_ *ctx.EvalCtx, receiver object.Object, args ...object.Ob
 	target := args[0]
 
 	for _, el := range elems {
-		isObj := el.Type() == object.OBJ_OBJ && target.Type() == object.OBJ_OBJ
-		isArr := el.Type() == object.ARR_OBJ && target.Type() == object.ARR_OBJ
-
-		if isObj || isArr {
-			if reflect.DeepEqual(el, target) {
-				return &object.Bool{Value: true}, nil
-			}
-
-			continue
-		}
-
-		if el.Val() == target.Val() {
+		if objectsEqual(el, target) {
 			return &object.Bool{Value: true}, nil
 		}
 	}
 
 	return &object.Bool{Value: false}, nil
+}
+
+// objectsEqual reports whether two objects have the same type and the same
+// content. Arrays and objects are compared element by element, so it does
+// not matter how an empty array was produced
+func objectsEqual(a, b object.Object) bool {
+	if a.Type() != b.Type() {
+		return false
+	}
+
+	switch a := a.(type) {
+	case *object.Array:
+		bElems := b.(*object.Array).Elements
+
+		if len(a.Elements) != len(bElems) {
+			return false
+		}
+
+		for i := range a.Elements {
+			if !objectsEqual(a.Elements[i], bElems[i]) {
+				return false
+			}
+		}
+
+		return true
+	case *object.Obj:
+		bPairs := b.(*object.Obj).Pairs
+
+		if len(a.Pairs) != len(bPairs) {
+			return false
+		}
+
+		for key, pair := range a.Pairs {
+			bPair, ok := bPairs[key]
+
+			if !ok || !objectsEqual(pair, bPair) {
+				return false
+			}
+		}
+
+		return true
+	}
+
+	return a.Val() == b.Val()
 }
 
 // arrayAppendFunc appends the given elements to the given array
